@@ -579,6 +579,59 @@ pub fn enumerate(n: u32, part: usize, parts: usize, sink: &mut EnumSink) {
             return;
         }
     }
+    // scale case: 98 304 singleton intervals (every even character), more than 2^16 of them, built by
+    // push and by try_from_iter on the reversed list; judged arithmetically
+    if part == parts - 1 {
+        let n_iv = (MAX as usize + 1) / 2;
+        let mut p = CharPartition::new();
+        for k in 0..n_iv as u32 {
+            p.push(2 * k, 2 * k);
+        }
+        let rev = CharPartition::try_from_iter((0..n_iv as u32).rev().map(|k| CharSet::singleton(2 * k)));
+        let mut o = Outcome::default();
+        let parts_to_check: Vec<(&str, &CharPartition)> = match &rev {
+            Ok(q) => vec![("push", &p), ("try_from_iter(reversed)", q)],
+            Err(e) => {
+                o.fail("C11/try_from_iter/rejects-disjoint", format!("try_from_iter on 98304 disjoint singletons = Err({:?})", e));
+                vec![("push", &p)]
+            }
+        };
+        for (how, q) in parts_to_check {
+            o.evals += 1;
+            if q.len() != n_iv || q.num_classes() != n_iv + 1 || q.empty_complement() || q.pick_complement() % 2 != 1 || q.pick_complement() > MAX {
+                o.fail("C11/scale", format!("98304 even singletons ({}): len {}, num_classes {}, empty_complement {}, witness {:#x}", how, q.len(), q.num_classes(), q.empty_complement(), q.pick_complement()));
+                break;
+            }
+            let mut c = 0u32;
+            while c <= MAX {
+                o.evals += 1;
+                let exp = if c % 2 == 0 { ClassId::Interval((c / 2) as usize) } else { ClassId::Complement };
+                let got = q.class_of_char(c);
+                if got != exp {
+                    o.fail("C11/scale", format!("98304 even singletons ({}): class_of_char({:#x}) = {}, expected {}", how, c, got, exp));
+                    break;
+                }
+                // [c, c] is covered by its interval or disjoint; [c, c+1] always overlaps one interval and the complement
+                let one = q.interval_cover(&CharSet::singleton(c));
+                let exp_one = if c % 2 == 0 { CoverResult::CoveredBy((c / 2) as usize) } else { CoverResult::DisjointFromAll };
+                let two = if c < MAX { q.interval_cover(&CharSet::range(c, c + 1)) } else { CoverResult::Overlaps };
+                if one != exp_one || two != CoverResult::Overlaps {
+                    o.fail("C11/scale", format!("98304 even singletons ({}): interval_cover([{:#x}]) = {}, interval_cover([{:#x},{:#x}]) = {}", how, c, one, c, c + 1, two));
+                    break;
+                }
+                c += if c < 70000 && c > 65000 { 1 } else { 37 };
+            }
+            if !o.fails.is_empty() {
+                break;
+            }
+            if q.picks().count() != n_iv + 1 || q.class_ids().count() != n_iv + 1 {
+                o.fail("C11/scale", format!("98304 even singletons ({}): picks() yields {} items, class_ids() {}", how, q.picks().count(), q.class_ids().count()));
+                break;
+            }
+        }
+        sink.case(&o, true, || "scale case: 98304 singleton intervals".to_string());
+        sink.stats.exhaustive_spaces.push("scale case: the partition of all 98 304 even characters as singleton intervals (push and try_from_iter reversed), class_of_char / interval_cover on every 37th character and on every character of [65000,70000]".to_string());
+    }
     // overlapping pairs for try_from_iter: all pairs of intervals
     if part == 0 {
         for &a in &queries {
